@@ -88,4 +88,22 @@ PROPS["C02"] = {
                   "did not produce is accepted' is proved up to MAC unforgeability (stated as the MAC-validity conclusion of the theorem).",
 }
 
+PROPS["C18"] = {
+    "drivers": [MAIN],
+    "rule": "(1) cookies.MakeCookieFromOptions on option combinations {secure, httponly, samesite x4, path x2, 7 domain sets of 0-3 nested "
+            "domains, 3 names, 4 expirations} x 17 hosts (exact, sub-domain, look-alike, unrelated, with port, IPv6, upper case, trailing dot, "
+            "empty) x X-Forwarded-Host {absent, matching, unrelated} x reverse-proxy on/off: the serialised cookie is compared byte for byte "
+            "with the model; (2) a monitor on every Set-Cookie of complete flows (unauthenticated, start, callback, request, refresh, bad "
+            "callback, sign-out) of 6 proxy configurations incl. server-side store, split cookies, nested domains with port, reverse proxy "
+            "and a spoofed X-Forwarded-Host with reverse-proxy off; non-trivial = all; distinct = distinct model call",
+    "assumptions": ["net/http Cookie.String() is modelled (Model/Cookies.v: attribute order, Domain validity rule, Max-Age rendering)",
+                    "configured domains are sorted longest-first (validation does it with sort.Slice; equal lengths excluded in the sweep)"],
+    "trusted_base": ["reference Domain rule written in the driver (vRefDomain) from the property text, independent of repository code"],
+    "level_text": "c18_attrs, c18_domain (for every host string and every longest-first domain list: longest configured suffix of the port-less "
+                  "host, else the shortest, else none), c18_delete, c18_session_parts and c18_size (<= 4096) are proved for all inputs of the "
+                  "Gallina model of MakeCookieFromOptions / GetCookieDomain / makeSessionCookie; the model is compared byte for byte with the "
+                  "constructor on a sweep and an oracle monitors every Set-Cookie of complete flows on every run.",
+    "level_note": "That MakeCookieFromOptions is the only constructor reaching http.SetCookie is checked by the flows' monitor, not by a theorem.",
+}
+
 NOT_APPLICABLE = {}
